@@ -126,7 +126,9 @@ def run_d(crate, harness_specs, tier, seed, result):
                 out = binary + f".{hid}.json"
                 cmd = [binary, hs["name"], "--threads", str(t.get("threads", NCPU)), "--max-paths", str(t.get("max_paths", 100000)),
                        "--seed", str(seed + extra_seed), "--split-depth", str(t.get("split_depth", 3)), "--out", out,
-                       "--crosscheck-every", str(t.get("crosscheck_every", 211))]
+                       "--crosscheck-every", str(t.get("crosscheck_every", 211)),
+                       # the runner stops itself before the hard kill, so counterexamples found so far are still reported
+                       "--time", str(int(t.get("timeout", 3600) * 0.8))]
                 run_one_d(cmd, out, hs_run, t, crate, result, features)
     finally:
         try:
